@@ -128,6 +128,32 @@ def F14():
         assert out[0] == out[1], (d, out)  # compiled reader reads the scalar behind the gap from the wrong offset
 
 
+def _both(d, data, **kw):
+    out = []
+    for comp in (True, False):
+        cs = cstruct(**{k: v for k, v in kw.items() if k == "pointer"})
+        cs.load(d, align=kw.get("align", False), compiled=comp)
+        o = cs.t(data)
+        out.append((repr(o), o._sizes, o.dumps()))
+    return out
+
+
+def F15():
+    for n in (1, 2, 3, 5):
+        a, b = _both("struct t { uint8 n; uint8 b[n]; uint32 c; uint8 d; uint64 e; };", bytes([n] + list(range(1, 80))), align=True)
+        assert a == b, (n, a, b)
+
+
+def F16():
+    a, b = _both("enum E : uint24 { A = 1 }; struct t { E x[2]; uint8 q; };", bytes(range(1, 20)))
+    assert a == b, (a, b)  # compiled reader returned six one-byte elements
+
+
+def F17():
+    a, b = _both("struct t { uint8 *p; uint8 q; };", bytes(range(1, 20)), pointer="uint24")
+    assert a == b, (a, b)  # compiled reader raised ValueError
+
+
 ALL = {k: v for k, v in globals().items() if k.startswith("F") and callable(v)}
 
 if __name__ == "__main__":
